@@ -178,6 +178,15 @@ pub fn exhaustive_count(id: &str, tier: &str) -> u64 {
 
 pub fn generate(id: &str, tier: &str, r: u64, rng: &mut Rng) -> Value {
     let mut sc = generate_inner(id, tier, r, rng);
+    // paths that are not valid UTF-8: the whole scratch root of the run (cache, destinations, link targets), or only
+    // the cache directory's own name
+    if sc.get("engine").is_none() && sc.get("cache_style").is_none() && !matches!(id, "C12") {
+        match r % 32 {
+            13 => sc["cache_style"] = serde_json::json!("odd_root"),
+            29 => sc["cache_style"] = serde_json::json!("odd_cache"),
+            _ => {}
+        }
+    }
     // a sample of the format/digest runs is cross-checked against the independent python implementation
     if matches!(id, "C16" | "C17") && r % 64 == 5 && sc.get("engine").is_none() {
         sc["xcheck"] = serde_json::json!(true);
